@@ -25,6 +25,7 @@ static int verif_is_null(const SDAI_Enum *e) { return e->v >= 2 || e->v < 0; }
 static Severity g_readenum_sev; static int g_readenum_calls, g_readenum_assign, g_readenum_delims;
 static Severity verif_ReadEnum(SDAI_Enum *, istream &, ErrorDescriptor *err, int assign, int needDelims) { g_readenum_calls++; g_readenum_assign = assign; g_readenum_delims = needDelims; err->severity(g_readenum_sev); return g_readenum_sev; }
 #include "enum_stepread_extract.inc"
+#include "logical_extract.inc"
 #include "src/clutils/errordesc.cc"
 #include "verif.h"
 const char *StrToUpper(const char *w, std::string &s) { s.clear(); for (int i = 0; i < 31 && w[i]; i++) s += (char)toupper(w[i]); return s.c_str(); }
@@ -93,4 +94,36 @@ extern "C" void h_Enum_STEPread()
     __CPROVER_assert(g_readenum_calls == 1 && g_readenum_assign && g_readenum_delims, "the item reader is run once, assigning, and insisting on the dots of an exchange file");
     if (in_sev == SEVERITY_INCOMPLETE && in_optional) __CPROVER_assert(s == SEVERITY_NULL && err.severity() == SEVERITY_NULL, "a missing value of an OPTIONAL enumeration attribute is no error");
     else __CPROVER_assert(s == (Severity)in_sev && err.severity() == (Severity)in_sev, "C03 every other outcome of the item reader, in particular an undeclared item or missing dots (an error), is reported unchanged, OPTIONAL or not");
+}
+
+/* C09/C03: LOGICAL items: .T. .F. .U. in any letter case are read to true / false / unknown; any other name raises an error and
+ * leaves the value unset; missing dots raise an error in an exchange file; the delimiter is never consumed */
+extern "C" void h_Logical_ReadEnum()
+{
+    IN_ARR(char, in_name, 2); IN(unsigned, in_nlen); IN(int, in_dot1); IN(int, in_close);
+    __CPROVER_assume(in_nlen >= 1 && in_nlen <= 2);
+    for (int i = 0; i < 2; i++) if ((unsigned)i < in_nlen) __CPROVER_assume(isalpha(in_name[i]) || in_name[i] == '_' || (i > 0 && isdigit(in_name[i])));
+    __CPROVER_assume(in_close >= 1 && in_close <= 255 && !isalnum(in_close) && in_close != '_');
+    __CPROVER_assume(in_dot1 || isalpha(in_name[0]));
+    int p = 0; g_stream_arbitrary = 0;
+    if (in_dot1) g_stream_script[p++] = '.';
+    for (int i = 0; i < 2; i++) if ((unsigned)i < in_nlen) g_stream_script[p++] = in_name[i];
+    g_stream_script[p++] = (char)in_close; g_stream_script[p++] = ','; g_stream_len = p;
+    istream in; in._m_state = 0; in._m_have = 0; in._m_consumed = 0;
+    SDAI_LOGICAL *e = (SDAI_LOGICAL *)malloc(sizeof(SDAI_LOGICAL)); e->v = LTrue;
+    ErrorDescriptor err;
+    Severity s = e->SDAI_LOGICAL::ReadEnum(in, &err, 1, 1);
+    char up = (char)toupper(in_name[0]);
+    int idx = in_nlen == 1 ? (up == 'T' ? LTrue : up == 'F' ? LFalse : up == 'U' ? LUnknown : -1) : -1;
+    int well_delimited = in_dot1 && in_close == '.';
+    if (idx >= 0 && well_delimited) {
+        __CPROVER_assert(s == SEVERITY_NULL && e->v == idx, "C09 .T. / .F. / .U. are read, in either letter case, to true / false / unknown");
+        __CPROVER_assert(in._m_consumed == (unsigned long)(p - 1), "C09 the delimiter after the closing dot of a LOGICAL value is not consumed");
+    }
+    if (idx < 0) {
+        __CPROVER_assert(s <= SEVERITY_WARNING, "C09/C03 a LOGICAL item other than T, F, U raises an error");
+        __CPROVER_assert(e->v == LUnset, "C09 an invalid LOGICAL item leaves the value unset");
+    }
+    if (!well_delimited) __CPROVER_assert(s <= SEVERITY_WARNING, "C09 a LOGICAL item without its two dots raises an error in an exchange file");
+    __CPROVER_assert(in._m_consumed <= (unsigned long)(p - 1), "C09 the attribute delimiter is never consumed by the LOGICAL reader");
 }
